@@ -34,10 +34,26 @@ pub struct Case {
     /// workspace plugin n (bit n mod 3) is an editable install whose sources live OUTSIDE the workspace
     #[serde(default)]
     pub outside_mask: u8,
+    /// the CLI is pointed at the sub-folder `a/` of the tree; helper modules above it stay reachable
+    /// through imports (only the `fixtures unused` reports are judged then)
+    #[serde(default)]
+    pub at_sub: bool,
+}
+
+fn runs_at_sub(c: &Case) -> bool {
+    c.at_sub && c.ws.files.iter().any(|f| f.loc.dir == 1 && (f.loc.is_conftest() || f.loc.is_test()))
 }
 
 fn effective_ws(c: &Case) -> WorkspaceSpec {
     let mut ws = c.ws.clone();
+    if runs_at_sub(c) {
+        ws.files.retain(|f| match f.loc.kind {
+            FileKind::Plugin(_) | FileKind::ThirdParty(_) => false,
+            FileKind::Helper(_) => f.loc.dir != 4,
+            _ => f.loc.dir != 0 && f.loc.dir != 4,
+        });
+        return ws;
+    }
     for f in ws.files.iter_mut() {
         if let FileKind::Plugin(n) = f.loc.kind {
             if (c.outside_mask >> (n % 3)) & 1 == 1 {
@@ -71,7 +87,12 @@ pub fn check_case(c: &Case, info: &mut CaseInfo) -> Outcome {
         Err(e) => return Outcome::Fail(format!("cannot materialise: {}", e)),
     };
     let db = FixtureDatabase::new();
-    db.scan_workspace(Path::new(&disk.root));
+    let at_sub = runs_at_sub(c);
+    let cli_root = if at_sub { format!("{}/a", disk.root) } else { disk.root.clone() };
+    if at_sub {
+        info.classes.push("CLI pointed at a sub-folder".into());
+    }
+    db.scan_workspace(Path::new(&cli_root));
     // the CLI shows the files of an editable install that lives outside the workspace under a virtual
     // site-packages path of the workspace's virtualenv
     let outside = format!("{}/outside/", disk.base);
@@ -80,7 +101,7 @@ pub fn check_case(c: &Case, info: &mut CaseInfo) -> Outcome {
         if let Some(r) = s.strip_prefix(&outside) {
             return format!(".venv/lib/python3.11/site-packages/{}", r);
         }
-        s.strip_prefix(&format!("{}/", disk.root)).unwrap_or(&s).to_string()
+        s.strip_prefix(&format!("{}/", cli_root)).unwrap_or(&s).to_string()
     };
     let sens = crate::props::c08::order_sensitive_names(&m);
     let any_sens = !sens.is_empty();
@@ -113,7 +134,7 @@ pub fn check_case(c: &Case, info: &mut CaseInfo) -> Outcome {
     }
     let mut known: BTreeSet<String> = BTreeSet::new();
     let mut detail = None;
-    let root = disk.root.as_str();
+    let root = cli_root.as_str();
     // ---- fixtures unused (text)
     let ut = run_cli(&["fixtures", "unused", root], 1);
     let uj = run_cli(&["fixtures", "unused", root, "--format", "json"], 4);
@@ -164,6 +185,15 @@ pub fn check_case(c: &Case, info: &mut CaseInfo) -> Outcome {
     // text vs json: same entries, same order (they come from two processes: order-sensitive names excluded)
     if filt(&text_entries) != filt(&json_entries) {
         return Outcome::Fail(format!("text and JSON outputs of `fixtures unused` list different entries: text {:?} json {:?}", filt(&text_entries), filt(&json_entries)));
+    }
+    if at_sub {
+        // the tree layout `fixtures list` prints for files above the scanned folder is not judged
+        return if known.is_empty() {
+            Outcome::Ok
+        } else {
+            info.fail_detail = detail;
+            Outcome::Known(known.into_iter().collect())
+        };
     }
     // ---- fixtures list: counts and partition
     let l_all = run_cli(&["fixtures", "list", root], 16);
@@ -229,7 +259,7 @@ pub fn check_case(c: &Case, info: &mut CaseInfo) -> Outcome {
 }
 
 pub fn run(ctx: &Ctx) {
-    ctx.run_prop_shrink("cli", ctx.tier.pick(500, 15_000), 8, 200, || (workspace(cfg()), prop_oneof![2 => Just(0u8), 1 => 1u8..8]).prop_map(|(ws, outside_mask)| Case { ws, outside_mask }), |c, info| check_case(c, info));
+    ctx.run_prop_shrink("cli", ctx.tier.pick(500, 15_000), 8, 200, || (workspace(cfg()), prop_oneof![2 => Just(0u8), 1 => 1u8..8], prop_oneof![4 => Just(false), 1 => Just(true)]).prop_map(|(ws, outside_mask, at_sub)| Case { ws, outside_mask, at_sub }), |c, info| check_case(c, info));
 }
 
 pub fn judge(_ctx: &Ctx, sub: &str, case: &Value) -> Option<Outcome> {
